@@ -1,3 +1,3 @@
 SPECIFICATION Spec
-INVARIANTS TypeOK LvalueToRefRvalueToValue Idempotent ApplyCvLaws ConstifyLaws FactoryLaws EmitRows
+INVARIANTS TypeOK LvalueToRefRvalueToValue Idempotent ApplyCvLaws ConstifyLaws FactoryLaws AccessorLaws EmitRows
 CHECK_DEADLOCK FALSE
